@@ -1,6 +1,7 @@
 package checks
 
 import (
+	"syscall"
 	"sync"
 	"os"
 	"strconv"
@@ -241,3 +242,5 @@ func getenvInt(name string, def int) int {
 }
 
 type lockT = sync.Mutex
+
+var syscallQuit = syscall.SIGQUIT
